@@ -74,7 +74,7 @@ def run_model(P, cases):
     for c in cases:
         lines.append("# " + c["id"])
         lines += c["lines"]
-    out, err, rc = C.run_lines([C.driver_path(), P.COMPONENT], lines, timeout=getattr(P, "TIMEOUT", 900))
+    out, err, rc = C.run_lines([C.driver_path(P.COMPONENT)], lines, timeout=getattr(P, "TIMEOUT", 900))
     if rc != 0:
         raise C.BuildError("Lean driver failed rc=%s: %s" % (rc, err[-2000:]))
     return split_cases(out)
@@ -209,7 +209,7 @@ def main():
     except C.BuildError as e:
         print(str(e))
         obligations_broken.append(("extraction", str(e)[-800:]))
-    ok_drv, out_drv = C.lake(["driver"])
+    ok_drv, out_drv = C.lake(["driver-" + P.COMPONENT])
     if not ok_drv:
         obligations_broken.append(("model/driver build: " + "; ".join(C.failing_decls(out_drv)[:5]), out_drv[-1500:]))
     ok_p, out_p = C.lake(["JsonC.Props." + prop])
